@@ -78,6 +78,7 @@ type harnessAgg struct {
 	ModelEvals int
 	SolverS    float64
 	SymPaths   int
+	SymAsserts int
 	Sat        int
 	Unsat      int
 	Unknown    int
@@ -352,9 +353,10 @@ func checkMain(args []string) int {
 		a.Unsat += pr.Unsat
 		a.Unknown += pr.Unknown
 		a.Fallbacks += pr.Fallbacks
-		if pr.SymDecs > 0 {
+		if pr.SymDecs > 0 || pr.SymInputs > 0 {
 			a.SymPaths++
 		}
+		a.SymAsserts += pr.SymAsserts
 		a.distinct[fmt.Sprint(pr.Decisions)] = true
 		for _, nt := range pr.Notes {
 			a.Notes[nt]++
